@@ -114,13 +114,20 @@ impl Core {
                 self.ctx = None;
                 Some("ok".into())
             }
-            "parse" => {
+            "parse" | "parsev" => {
+                // both routes to a configured parser must give the same verdict
                 let text = text_of(w.get(1)?)?;
+                let value = w[0] == "parsev";
                 let (spec, scheme) = (&self.spec, &self.scheme);
                 Some(
-                    core::no_panic(|| match spec.parser(scheme).parse(&text) {
-                        Ok(_) => "ok".to_string(),
-                        Err(_) => "err".to_string(),
+                    core::no_panic(|| {
+                        let verdict = |setters: bool| -> &'static str {
+                            let p = spec.parser_via(scheme, setters);
+                            let ok = if value { p.parse_value(&text).is_ok() } else { p.parse(&text).is_ok() };
+                            if ok { "ok" } else { "err" }
+                        };
+                        let (a, b) = (verdict(true), verdict(false));
+                        if a == b { a.to_string() } else { format!("{b} routes-disagree(setters={a},settings={b})") }
                     })
                     .unwrap_or_else(|| "panic".into()),
                 )
@@ -169,17 +176,6 @@ impl Core {
                             }
                             _ => "err unparsed-debug".to_string(),
                         }
-                    })
-                    .unwrap_or_else(|| "panic".into()),
-                )
-            }
-            "parsev" => {
-                let text = text_of(w.get(1)?)?;
-                let (spec, scheme) = (&self.spec, &self.scheme);
-                Some(
-                    core::no_panic(|| match spec.parser(scheme).parse_value(&text) {
-                        Ok(_) => "ok".to_string(),
-                        Err(_) => "err".to_string(),
                     })
                     .unwrap_or_else(|| "panic".into()),
                 )
